@@ -111,9 +111,37 @@ func genC02(rt *rapid.T) core.Scenario {
 		return C02Op{Kind: "sub", Type: ti, Fn: fn, Opts: o}, true
 	}
 	nInit := rapid.IntRange(0, 3).Draw(rt, "nInit")
+	if rapid.IntRange(0, 7).Draw(rt, "crowd") == 7 {
+		// a crowd: 9-16 registrations made one after the other before the tasks start, then up to 8 of them
+		// unsubscribed again, oldest first or in any order - handler lists that grow and shrink past their
+		// small initial capacities
+		nInit = rapid.IntRange(9, 16).Draw(rt, "crowdSize")
+	}
 	for i := 0; i < nInit; i++ {
 		if op, ok := newSub("init"); ok {
+			if nInit >= 9 {
+				op.Type = types[0]
+				op.Fn = i / 2
+				if i%2 == 1 {
+					op.Fn += numSites
+				}
+				nextFn[types[0]] = i + 1
+			}
 			sc.Init = append(sc.Init, op)
+		}
+	}
+	if nInit >= 9 {
+		nu := rapid.IntRange(3, 8).Draw(rt, "crowdUnsubs")
+		for i := 0; i < nu; i++ {
+			n := i
+			if rapid.Bool().Draw(rt, "anyOrder") {
+				n = rapid.IntRange(0, nInit-1).Draw(rt, "crowdUnsubWhich")
+			}
+			fn := n / 2
+			if n%2 == 1 {
+				fn += numSites
+			}
+			sc.Init = append(sc.Init, C02Op{Kind: "unsub", Type: types[0], Fn: fn})
 		}
 	}
 	nTasks := rapid.IntRange(2, 4).Draw(rt, "nTasks")
